@@ -543,7 +543,9 @@ Definition holding (k : kind) (p : pc) : bool :=
   end.
 
 (* ---------- Manager.openFiles (manager.go execute) ---------- *)
-(* requests: 1 open ok, 2 open fails, 3 close, 4 opendir ok, 5 opendir fails, 6 closedir *)
+(* requests: 1 open ok, 2 open fails, 3 close, 4 opendir ok, 5 opendir fails, 6 closedir,
+   7 open whose context is canceled before the worker executes it: execute returns errCanceled WITHOUT opening anything,
+   so there is nothing to count and nothing to close (any other request number leaves the counter alone) *)
 Definition mgr_step (V : variant) (n : Z) (req : Z) : Z :=
   if (req =? 1) || (req =? 4) then n + 1
   else if (req =? 2) || (req =? 5) then (if fixF4 V then n else n + 1)   (* F4: counted although the open failed *)
@@ -793,7 +795,7 @@ Definition step_line (c : cstate) (op : list Z) : cstate * list Z :=
   | [30; req; ok; openfiles] =>
       let nf := mgr_step repaired (c_mgr c) req in
       let nb := mgr_step unrepaired (c_mgr c) req in
-      let okexp := if (req =? 2) || (req =? 5) then 0 else 1 in
+      let okexp := if (req =? 2) || (req =? 5) || (req =? 7) then 0 else 1 in
       if negb (ok =? okexp) then (c, [(-2); okexp; nf])
       else if nf =? openfiles then ({| c_sys := c_sys c; c_mgr := nf |}, [777; 1])
       else if nb =? openfiles then ({| c_sys := c_sys c; c_mgr := nb |}, [777; 4])
